@@ -562,32 +562,55 @@ func TestC16(t *testing.T) {
 	})
 }
 
-// TestC16Expiry (thorough tier, real 1.2 s wait): a challenge older than its longevity no longer authenticates.
+// c16Expiry (real waits): a challenge older than its longevity no longer authenticates - also when it was presented,
+// with a valid or with a junk signature, while it was still alive (its lifetime runs from issuance, not from last use).
 func c16Expiry(st *stats) {
-	s, err := newSvc("c16-expiry", 3, 2, false, 1)
-	if err != nil {
-		return
-	}
-	defer s.close()
-	k := s.w.Wallets[1]
-	tx := ref.MakeTx("c16 expiry", spice.Melange{}, []byte{1, 2, 3}, k.Addr, s.w.Wallets[2], s.w.Epoch.Add(time.Hour))
-	s.notary.Propose(bg, protoTx(&tx))
-	blob, err := s.notary.Data(bg, &protobufcompiled.Address{Public: k.Addr})
-	if err != nil {
-		return
-	}
-	res, err := s.notary.Waiting(bg, signedHash(k.Addr, blob.Blob, k))
-	fresh := err == nil && res != nil
-	time.Sleep(1200 * time.Millisecond)
-	res2, err2 := s.notary.Waiting(bg, signedHash(k.Addr, blob.Blob, k))
-	st.eval(1)
-	st.nontrivial(fp64("expiry"))
-	st.label("clause:challenge-expiry")
-	if !fresh {
-		st.note("expiry scenario: the fresh challenge was not accepted (%v)", err)
-	}
-	if err2 == nil && res2 != nil {
-		st.reportOnce("expired-challenge-accepted", "Waiting returned data for a challenge older than its 1 s longevity", map[string]string{"scenario": "expiry"})
+	for _, keepAlive := range []string{"none", "valid-read", "junk-signature"} {
+		s, err := newSvc("c16-expiry-"+keepAlive, 3, 2, false, 1)
+		if err != nil {
+			return
+		}
+		k := s.w.Wallets[1]
+		tx := ref.MakeTx("c16 expiry", spice.Melange{}, []byte{1, 2, 3}, k.Addr, s.w.Wallets[2], s.w.Epoch.Add(time.Hour))
+		s.notary.Propose(bg, protoTx(&tx))
+		blob, err := s.notary.Data(bg, &protobufcompiled.Address{Public: k.Addr})
+		issued := time.Now() // the challenge was stored before Data returned: it expires no later than issued + 1 s
+		if err != nil {
+			s.close()
+			return
+		}
+		res, err := s.notary.Waiting(bg, signedHash(k.Addr, blob.Blob, k))
+		fresh := err == nil && res != nil
+		kept := false
+		if keepAlive != "none" {
+			time.Sleep(600*time.Millisecond - time.Since(issued))
+			req := signedHash(k.Addr, blob.Blob, k)
+			if keepAlive == "junk-signature" {
+				req.Signature[7] ^= 0x20
+			}
+			r, e := s.notary.Waiting(bg, req)
+			kept = time.Since(issued) < 900*time.Millisecond
+			if keepAlive == "valid-read" && (e != nil || r == nil) {
+				kept = false
+			}
+		}
+		if d := 1250*time.Millisecond - time.Since(issued); d > 0 {
+			time.Sleep(d)
+		}
+		res2, err2 := s.notary.Waiting(bg, signedHash(k.Addr, blob.Blob, k))
+		st.eval(1)
+		st.nontrivial(fp64("expiry", keepAlive))
+		st.label("clause:challenge-expiry/" + keepAlive)
+		if keepAlive != "none" && kept {
+			st.label("clause:challenge-expiry:presented-again-inside-its-lifetime")
+		}
+		if !fresh {
+			st.note("expiry scenario: the fresh challenge was not accepted (%v)", err)
+		}
+		if err2 == nil && res2 != nil {
+			st.reportOnce("expired-challenge-accepted", fmt.Sprintf("Waiting returned data for a challenge %v after it was issued with a 1 s longevity (presented in between: %s)", time.Since(issued).Round(time.Millisecond), keepAlive), map[string]string{"scenario": "expiry", "keep_alive": keepAlive})
+		}
+		s.close()
 	}
 }
 
